@@ -5,6 +5,16 @@ HERE = os.path.dirname(os.path.dirname(os.path.abspath(__file__)))
 
 # id -> (category, technique, level text, level note, design ref)
 CHECKS = {
+ "C11": ("exploration",
+   "generated thread scripts + schedules under a deterministic scheduler (yield hooks inside embedding-class put/get/delete, between existence check and removal, around the WAL lock); recorded histories decided by a WGL linearizability search against a sequential map; durable order checked by recovering the log; real-thread stress with the same checker",
+   "Scripted threads (2-8) of put/get/delete/exists/scan on 1-3 contended keys of one key class run under the harness's scheduler, which switches threads at the store.emb.put/get/del, store.delete.checked hooks and at operation boundaries following a generated schedule. Every written value is unique and, for embedding keys, stamped into every vector component and a sibling field, so a mixture of two writes is recognisable. Invocation/response stamps come from one counter; the history must be linearizable against a sequential map (WGL search with memoisation, per key when no scan is present), with direct corollaries (no value nobody wrote) reported first. The durable part runs put_durable/delete_durable scripts with yield points inside and after the WAL lock and requires that recovering a copy of the log gives exactly the in-memory state. A real-thread stress part feeds the same checker.",
+   "The scheduler owns the interleaving only at hooked points and operation boundaries; with a hooked window locked, parked holders make other threads block and the scheduler falls back to a grace period (timing-dependent). Histories above 40 operations are not checked. Embedding values always carry a vector (sequential quirk of vector-less overwrites is outside this property).",
+   "DESIGN.md section 1 C11"),
+ "C06": ("exploration",
+   "model-based property-based testing (proptest): generated store/delete/index-build/search histories over default and named collections; scores recomputed in f64; validity predicates (order, membership, top-k optimality with tie tolerance, exact read-back) instead of single expected answers; stale-index witnesses",
+   "Histories of up to 40 operations (store, store-with-metadata, batch store, delete, batch delete, clear, build-and-cache-index, get, plain/per-metric/filtered search with all strategies, caller-held HNSW, named-collection equivalents incl. delete_collection) over vectors of mixed dimensions (dense, sparse, zero, duplicated, tiny components, exact ties) are checked against a model map: reads are exact; exhaustive searches must be sorted, contain only live keys of the query's dimension without duplicates, have length min(k, eligible), report each score within a stated tolerance of the f64 recomputation and omit no strictly better key; with a cached index only soundness (live keys, true scores, ordered, <= k) is asserted and any mutation after the build must make results exact again. A second part repeats this on 20-90 vectors stored in one batch.",
+   "HNSW recall is not asserted (approximate by contract). Tie-breaking in the product depends on a randomly seeded set; cases are judged by validity predicates and failing candidates must fail three times in a row while shrinking. Known findings: several mutation paths do not invalidate the cached index; pre-filter ignores the collection metric; index path strips a user 'emb:' prefix; cached index consulted with a query of another dimension.",
+   "DESIGN.md section 1 C06"),
  "C05": ("exploration",
    "stateful property-based testing (proptest) against a model edge set; generated thread scripts + schedules under a deterministic scheduler that owns the interleaving at yield hooks inside/before the adjacency read-modify-write; real-thread stress",
    "Sequential part: generated node/edge create/update/delete sequences (self-loops, parallel edges, directed and undirected); after every operation get_edge, all_edges, all_nodes, edges_of in all directions, degrees, neighbors (typed and untyped) and a BFS traverse must be exactly what the model edge set implies, plus order-free structural invariants read from the store. Concurrent parts: 2-8 scripted threads over <=5 shared nodes run under the harness's deterministic scheduler, which switches threads at the graph.adj.pre (before an adjacency update) or graph.adj.rmw (between the list read and write-back) hooks and at operation boundaries according to a generated schedule; at quiescence every edge whose creation returned Ok and that nothing deleted must exist and be listed by both endpoints in the right direction lists, deleted edges must be gone, and the structural invariants must hold. A real-thread stress part hammers one hub.",
